@@ -56,6 +56,9 @@ def run(ctx):
     from .pitfalls import rule_groupby_sorted, rule_single_use_iterators
     ctx.do(rule_groupby_sorted, "C09.iterator-pitfalls", ("stix2.equivalence.pattern",))
     ctx.do(rule_single_use_iterators, "C09.iterator-pitfalls", ("stix2.equivalence.pattern",))
+    # what the equivalence test compares is the model the parser builds: every operand of a chain is seen by the constructor
+    from . import C10
+    ctx.do(C10.rule_nodes_built_by_constructors, rule_id="C09.type-guard")
     from .pitfalls import rule_index_deletion_descending
 
     def _deletions(ctx_):
